@@ -43,14 +43,19 @@ def fam_core(rng):
 
 
 def fam_cv(rng):
-    """Monitor pattern: waiters await x0 == 1 on cv0 under mu0 (writer or reader mode, timed or not);
-    setters make it true and wake.  Terminates under every schedule: the last setter broadcasts."""
+    """Monitor pattern: waiters await x0 == 1 on cv0 under mu0 (writer or reader mode, timed or not, optionally
+    cancellable by a note); setters make it true and wake.  Terminates under every schedule: the last setter
+    broadcasts (a cancelled or timed-out waiter gives up)."""
     nw = rng.choice([1, 2, 2, 3])
+    use_note = rng.random() < 0.35
     lines = ["sem %s" % rng.choice(["counting", "binary"]), "objs mu=1 cv=1 var=1", "var x0 0 mu0"]
+    if use_note:
+        lines.append("pre note_new n0 - %s" % rng.choice(["inf", "inf", "p3000", "p60000"]))
     for i in range(nw):
         dl = rng.choice(["inf", "inf", "p1000", "p80000", "m5"])
         rd = rng.random() < 0.35
-        ops = ["rlock mu0" if rd else "lock mu0", "await cv0 mu0 x0 1 %s" % dl]
+        note = " n0" if use_note and rng.random() < 0.6 else ""
+        ops = ["rlock mu0" if rd else "lock mu0", "await cv0 mu0 x0 1 %s%s" % (dl, note)]
         if rng.random() < 0.3: ops.append("signal cv0")
         ops.append("runlock mu0" if rd else "unlock mu0")
         lines.append("fiber " + " ; ".join(ops))
@@ -63,6 +68,8 @@ def fam_cv(rng):
             ops = ["lock mu0", "wr x0 1", "unlock mu0", wake]
         if rng.random() < 0.3: ops = ["yield"] * rng.randrange(1, 4) + ops
         lines.append("fiber " + " ; ".join(ops))
+    if use_note and rng.random() < 0.7:
+        lines.append("fiber " + " ; ".join(["yield"] * rng.randrange(0, 4) + ["notify n0"]))
     return lines
 
 
